@@ -354,6 +354,15 @@ def report(ctx, what, detail, signature=None):
     ctx.violations.append((what, path))
 
 
+def drift(ctx, what):
+    """A disagreement between the real code and a part of the specification that goes beyond the listed properties
+    (documented defaults, the default validator): logged and put into the evidence, never a verdict."""
+    ctx.drifts = getattr(ctx, "drifts", [])
+    if len(ctx.drifts) < 20:
+        ctx.drifts.append(what)
+    log("SPEC-DRIFT (beyond the listed properties, not a verdict): " + what)
+
+
 def write_evidence(ctx, level, coverage, assumptions):
     ev = {
         "property_id": ctx.pid,
@@ -366,6 +375,7 @@ def write_evidence(ctx, level, coverage, assumptions):
         "violations": len(ctx.violations),
         "repo_fingerprint": repo_fingerprint(),
         "tlc_runs": ctx.tlc_runs,
+        "beyond_property_disagreements": getattr(ctx, "drifts", []),
     }
     with open(os.path.join(EVID, ctx.pid + ".json"), "w") as f:
         json.dump(ev, f, indent=1, default=str)
